@@ -410,9 +410,14 @@ class LiveRun:
     def proj_order(self, o):
         mk = self.fl.markets.markets.get(o.market_id)
         inbl = live = False
+        bybet = True
         if mk is not None:
             inbl = o.id in mk.blotter and mk.blotter[o.id] is o
             live = any(x is o for x in mk.blotter._live_orders)
+            # the view by bet id (it holds replacement and adopted orders: those that enter the blotter with a bet id)
+            lab = self.label_order(o)
+            if inbl and o.bet_id and (".r" in lab or lab.startswith("ad")):
+                bybet = mk.blotter.get_order_bet_id(o.bet_id) is o
         ot = o.order_type
         tname = ot.ORDER_TYPE.name
 
@@ -424,7 +429,7 @@ class LiveRun:
         return {"status": STATUS_NAME[o.status], "cplt": bool(o.complete), "bet": o.bet_id is not None, "betid": str(o.bet_id) if o.bet_id is not None else "",
                 "side": o.side, "type": tname, "price": pence(getattr(ot, "price", 0) or 0), "size": pence(ot.size) if tname == "LIMIT" else pence(ot.liability),
                 "pers": getattr(ot, "persistence_type", None) or "NA", "m": f(lambda: o.size_matched), "rem": f(lambda: o.size_remaining), "can": f(lambda: o.size_cancelled),
-                "lap": f(lambda: o.size_lapsed), "void": f(lambda: o.size_voided), "inbl": inbl, "live": live, "trade": self.label_trade(o.trade), "selk": rk(o.selection_id, o.handicap),
+                "lap": f(lambda: o.size_lapsed), "void": f(lambda: o.size_voided), "inbl": inbl, "live": live, "bybet": bool(bybet), "trade": self.label_trade(o.trade), "selk": rk(o.selection_id, o.handicap),
                 "mid": o.market_id, "strat": o.trade.strategy.name, "rck": "%s|%s|%s" % (o.trade.strategy.name, o.market_id, rk(o.selection_id, o.handicap)), "nlog": len(o.status_log),
                 "red": pence(o.update_data.get("size_reduction")) if o.update_data.get("size_reduction") else 0, "newp": pence(o.update_data.get("new_price")) if o.update_data.get("new_price") else 0,
                 "inst": self.inst_of.get(id(o), self.instance), "async": bool(o.async_), "ref": o.customer_order_ref, "lad": "CLASSIC", "avg": f(lambda: o.average_price_matched),
